@@ -131,17 +131,42 @@ package types
 //@ // the recent-signer keys in the store parse (they are only ever written by keyRecentSinger): reading them cannot fail
 //@ spec recentsReadable(S: store, c: str): bool
 //@
-//@ // the snapshot: the validator set of the client state as a set of addresses, and the recent-signer records of the
-//@ // client store as a map from block number to address
-//@ func (ClientState).snapshot(cdc, store) (snap, err)
+//@ // the recent-signer records of the client store as a list (the prefix iterator and the key parser are not modelled):
+//@ // every listed record is in the store with that value, every record of the store is listed
+//@ spec rsRn(R: obj, i: i64): u64 = as(seqobj(R, i), Signer).Height.RevisionNumber
+//@ spec rsRh(R: obj, i: i64): u64 = as(seqobj(R, i), Signer).Height.RevisionHeight
+//@ spec rsVal(R: obj, i: i64): str = str(as(seqobj(R, i), Signer).Validator)
+//@ func GetRecentSigners(store) (recentSingers, err)
 //@   props C17
 //@   let c = clientOf(store)
 //@   trusts readable: recentsReadable(tibc, c) ==> err == nil
-//@   trusts number: err == nil ==> snap != nil && snap.Number == self.Header.Height.RevisionHeight
-//@   trusts vals:   err == nil ==> domset(snap.Validators) == valset(self.Validators)
-//@   trusts card:   err == nil ==> len(snap.Validators) == nvals(self.Validators)
-//@   trusts recents.dom: err == nil ==> (forall h: u64 :: mapdom(snap.Recents, h) <==> (exists rn: u64 :: present(tibc[recentSigner(c, rn, h)])))
-//@   trusts recents.val: err == nil ==> (forall h: u64 :: mapdom(snap.Recents, h) ==> (exists rn: u64 :: present(tibc[recentSigner(c, rn, h)]) && mapval(snap.Recents, h) == addr20(val(tibc[recentSigner(c, rn, h)]))))
+//@   trusts listed:   err == nil ==> (forall i: i64 :: 0 <=s i && i <s seqlen(recentSingers) ==> present(tibc[recentSigner(c, rsRn(recentSingers, i), rsRh(recentSingers, i))]) && rsVal(recentSingers, i) == val(tibc[recentSigner(c, rsRn(recentSingers, i), rsRh(recentSingers, i))]))
+//@   trusts all:      err == nil ==> (forall rn: u64, h: u64 :: present(tibc[recentSigner(c, rn, h)]) ==> (exists i: i64 :: 0 <=s i && i <s seqlen(recentSingers) && rsRn(recentSingers, i) == rn && rsRh(recentSingers, i) == h))
+//@
+//@ // the snapshot: the validator set of the client state as a set of addresses, and the recent-signer records of the
+//@ // client store as a map from block number to address (both loops verified; the list of records is GetRecentSigners')
+//@ func (ClientState).snapshot(cdc, store) (snap, err)
+//@   props C17
+//@   let c = clientOf(store)
+//@   let V = self.Validators
+//@   ensures readable: recentsReadable(tibc, c) ==> err == nil
+//@   ensures number: err == nil ==> snap != nil && snap.Number == self.Header.Height.RevisionHeight
+//@   ensures vals:   err == nil ==> domset(snap.Validators) == valset(V)
+//@   ensures card:   err == nil ==> len(snap.Validators) == nvals(V)
+//@   ensures recents.dom: err == nil ==> (forall h: u64 :: mapdom(snap.Recents, h) <==> (exists rn: u64 :: present(tibc[recentSigner(c, rn, h)])))
+//@   ensures recents.val: err == nil ==> (forall h: u64 :: mapdom(snap.Recents, h) ==> (exists rn: u64 :: present(tibc[recentSigner(c, rn, h)]) && mapval(snap.Recents, h) == addr20(val(tibc[recentSigner(c, rn, h)]))))
+//@   loop #0 modifies nothing
+//@   loop #0 invariant range: -1 <=s rangeindex && rangeindex <s seqlen(V)
+//@   loop #0 invariant set:   domset(snap.Validators) == vprefix(V, rangeindex + 1)
+//@   loop #0 invariant card:  rangeindex + 1 == seqlen(V) ==> len(snap.Validators) == nvals(V)
+//@   loop #0 invariant rec:   domset(snap.Recents) == emptyset(u64)
+//@   loop #0 decreases seqlen(V) - 1 - rangeindex
+//@   loop #1 modifies nothing
+//@   loop #1 invariant range: -1 <=s rangeindex && rangeindex <s seqlen(recentSingers)
+//@   loop #1 invariant vals:  domset(snap.Validators) == valset(V) && len(snap.Validators) == nvals(V)
+//@   loop #1 invariant dom:   forall h: u64 :: mapdom(snap.Recents, h) <==> (exists j: i64 :: 0 <=s j && j <=s rangeindex && rsRh(recentSingers, j) == h)
+//@   loop #1 invariant val:   forall h: u64 :: mapdom(snap.Recents, h) ==> (exists j: i64 :: 0 <=s j && j <=s rangeindex && rsRh(recentSingers, j) == h && mapval(snap.Recents, h) == addr20(rsVal(recentSingers, j)))
+//@   loop #1 decreases seqlen(recentSingers) - 1 - rangeindex
 //@
 //@ // in-turn: the validator at position (Number+1) mod N of the ascending address order of the set
 //@ spec inTurn(S: set_str, number: u64, a: str): bool
